@@ -66,6 +66,11 @@ type caseT struct {
 	// (direct: the decorated handler is called len(Seq) times), the k-th with the transport-level
 	// interceptor Seq[k] of the called kind: 0 = none, 1 = A, 2 = B (distinct, both call onward). T is unused.
 	Seq []int `json:"seq,omitempty"`
+	// Ctx: 0 = the RPC's context stays live; 1 = already cancelled at dispatch; 2 = cancelled by the
+	// transport-level interceptor of the called kind just before it calls onward (T is pass or rewrite).
+	Ctx int `json:"ctx,omitempty"`
+	// CF: 0 = the client opens streams with the registered flags; 1..4 = with flags CF-1 (bit0 client, bit1 server)
+	CF int `json:"cf,omitempty"`
 }
 
 var seqNames = []string{"nil", "A", "B"}
@@ -86,7 +91,14 @@ func (c caseT) chainStr() string {
 }
 
 func (c caseT) String() string {
-	return fmt.Sprintf("%s/%s u=%d flags=%v depth=%d %s %s other=%v/%v/%v herr=%v", c.Carrier, c.Form, c.U, c.Flags, c.Depth, c.Kind, c.chainStr(), c.OT, c.OD1, c.OD2, c.HErr)
+	s := fmt.Sprintf("%s/%s u=%d flags=%v depth=%d %s %s other=%v/%v/%v herr=%v", c.Carrier, c.Form, c.U, c.Flags, c.Depth, c.Kind, c.chainStr(), c.OT, c.OD1, c.OD2, c.HErr)
+	if c.Ctx != 0 {
+		s += " ctx=" + []string{"live", "cancelled-at-dispatch", "cancelled-by-T-before-onward"}[c.Ctx]
+	}
+	if c.CF != 0 {
+		s += fmt.Sprintf(" client-flags=%d", c.CF-1)
+	}
+	return s
 }
 
 // ---------------------------------------------------------------- event log
@@ -110,6 +122,21 @@ type entry struct {
 type clog struct {
 	mu sync.Mutex
 	es []*entry
+	// hooks of the current call (set by the case runner)
+	beforeOnward func(who string)
+	onReturn     func(who string)
+}
+
+func (l *clog) onward(who string) {
+	if l.beforeOnward != nil {
+		l.beforeOnward(who)
+	}
+}
+
+func (l *clog) returning(who string) {
+	if l.onReturn != nil {
+		l.onReturn(who)
+	}
 }
 
 func (l *clog) add(e *entry) *entry {
@@ -136,6 +163,7 @@ func mkUnary(l *clog, who string, b int) grpc.UnaryServerInterceptor {
 		switch b {
 		case bPass:
 			e.called = true
+			l.onward(who)
 			e.gotResp, e.gotErr = handler(ctx, req)
 			e.retResp, e.retErr = e.gotResp, e.gotErr
 		case bShort:
@@ -144,9 +172,11 @@ func mkUnary(l *clog, who string, b int) grpc.UnaryServerInterceptor {
 			e.retErr = status.Error(codes.PermissionDenied, "fail:"+who)
 		case bRewrite:
 			e.called = true
+			l.onward(who)
 			e.gotResp, e.gotErr = handler(ctx, req)
 			e.retResp = wrapperspb.String("rw:" + who)
 		}
+		l.returning(who)
 		return e.retResp, e.retErr
 	}
 }
@@ -160,6 +190,7 @@ func mkStream(l *clog, who string, b int) grpc.StreamServerInterceptor {
 		switch b {
 		case bPass:
 			e.called = true
+			l.onward(who)
 			e.gotErr = handler(srv, ss)
 			e.retErr = e.gotErr
 		case bShort:
@@ -168,9 +199,11 @@ func mkStream(l *clog, who string, b int) grpc.StreamServerInterceptor {
 			e.retErr = status.Error(codes.PermissionDenied, "fail:"+who)
 		case bRewrite:
 			e.called = true
+			l.onward(who)
 			e.gotErr = handler(srv, ss)
 			e.retErr = status.Error(codes.Aborted, "rw:"+who)
 		}
+		l.returning(who)
 		return e.retErr
 	}
 }
@@ -619,10 +652,46 @@ func runCase(c caseT, verbose bool) (probs []problem, observed string) {
 			if shared {
 				sub += fmt.Sprintf(",call=%d:%s", k, t.who)
 			}
+			if c.Ctx != 0 {
+				sub += fmt.Sprintf(",ctx=%d", c.Ctx)
+			}
+			ccs, css := cs, ss // the flags the client opens the stream with
+			if c.CF != 0 && c.Kind == "stream" {
+				ccs, css = (c.CF-1)&1 != 0, (c.CF-1)&2 != 0
+				sub += fmt.Sprintf(",client-cs=%v,client-ss=%v", ccs, css)
+			}
 			want := expect(c, c.chainWith(t.who, t.beh), method)
+			ctx, cancel := context.WithCancel(context.Background())
+			var done chan struct{}
+			l.beforeOnward, l.onReturn = nil, nil
+			switch c.Ctx {
+			case 1:
+				cancel()
+			case 2:
+				done = make(chan struct{})
+				var once sync.Once
+				tw := t.who
+				l.beforeOnward = func(who string) {
+					if who == tw {
+						cancel()
+					}
+				}
+				l.onReturn = func(who string) {
+					if who == tw {
+						once.Do(func() { close(done) })
+					}
+				}
+			}
 			l.take()
-			res := call(c, method, full, cs, ss, final, srv, t.tU, t.tS, t.ipc, t.hs)
+			res := call(c, ctx, method, full, ccs, css, final, srv, t.tU, t.tS, t.ipc, t.hs)
+			if done != nil && c.Carrier != "direct" {
+				<-done // the server side runs in its own goroutine: wait until the outermost participant has returned
+			}
+			cancel()
+			l.beforeOnward, l.onReturn = nil, nil
 			es := l.take()
+			// with a dead context on a transport, what the client sees and what the handler can still read is the transport's business (C04), not this property's
+			relaxed := c.Ctx != 0 && c.Carrier != "direct"
 			got := whos(es)
 			o := fmt.Sprintf("%s"+map[bool]string{true: "@" + t.who, false: ""}[shared]+": log=%v result=(%q %v err=%v)", method, got, res.respVal, res.msgs, res.err)
 			obs = append(obs, o)
@@ -648,7 +717,7 @@ func runCase(c caseT, verbose bool) (probs []problem, observed string) {
 					if e.srv != interface{}(srv) {
 						add("handler-srv", sub, fmt.Sprintf("call %s: handler got srv %v, registered %v", full, e.srv, srv))
 					}
-					if e.reqValue != "req:"+method {
+					if e.reqValue != "req:"+method && !relaxed {
 						add("request-value", sub, fmt.Sprintf("call %s: handler read request %q, sent %q", full, e.reqValue, "req:"+method))
 					}
 				} else {
@@ -691,7 +760,7 @@ func runCase(c caseT, verbose bool) (probs []problem, observed string) {
 				if c.Kind == "stream" && !reflect.DeepEqual(res.msgs, want.msgs) && !(len(res.msgs) == 0 && len(want.msgs) == 0) {
 					add("caller-result", sub, fmt.Sprintf("call %s: messages sent %v, expected %v", full, res.msgs, want.msgs))
 				}
-			} else {
+			} else if !relaxed {
 				st, _ := status.FromError(res.err)
 				if res.err == io.EOF {
 					st = status.New(codes.OK, "")
@@ -705,7 +774,7 @@ func runCase(c caseT, verbose bool) (probs []problem, observed string) {
 					if c.Kind == "stream" && !reflect.DeepEqual(res.msgs, want.msgs) {
 						add("client-response", sub, fmt.Sprintf("call %s: client got messages %v, expected %v", full, res.msgs, want.msgs))
 					}
-				} else if c.Kind == "stream" && ss && !reflect.DeepEqual(res.msgs, want.msgs) && !(len(res.msgs) == 0 && len(want.msgs) == 0) {
+				} else if c.Kind == "stream" && css && !reflect.DeepEqual(res.msgs, want.msgs) && !(len(res.msgs) == 0 && len(want.msgs) == 0) {
 					add("client-response", sub, fmt.Sprintf("call %s: client got messages %v before the error, expected %v", full, res.msgs, want.msgs))
 				}
 			}
@@ -748,13 +817,12 @@ func methodOf(es []*entry) string {
 	return "-"
 }
 
-func call(c caseT, method, full string, cs, ss bool, final *grpc.ServiceDesc, srv interface{}, tU grpc.UnaryServerInterceptor, tS grpc.StreamServerInterceptor, ipc *inprocgrpc.Channel, hs *httpgrpc.Server) (res callResult) {
+func call(c caseT, ctx context.Context, method, full string, cs, ss bool, final *grpc.ServiceDesc, srv interface{}, tU grpc.UnaryServerInterceptor, tS grpc.StreamServerInterceptor, ipc *inprocgrpc.Channel, hs *httpgrpc.Server) (res callResult) {
 	defer func() {
 		if r := recover(); r != nil {
 			res.panicked = r
 		}
 	}()
-	ctx := context.Background()
 	reqVal := "req:" + method
 	if c.Carrier == "direct" {
 		if c.Kind == "unary" {
@@ -968,6 +1036,82 @@ func enumerateShared(tier string, fn func(caseT)) {
 	}
 }
 
+// enumerateCtx: the context dimension. Direct carrier: context already cancelled at dispatch, or
+// cancelled by the transport-level interceptor just before it calls onward; in-process channel: the
+// latter only (with a context that is dead at dispatch a transport may legitimately not dispatch at
+// all, and whether it will cannot be observed without timing).
+func enumerateCtx(tier string, fn func(caseT)) {
+	behs := []int{bNil, bPass, bShort, bFail, bRewrite}
+	d2s := []int{bNil, bPass}
+	shs := []shape{{1, nil}, {0, []int{3}}, {2, []int{1, 2}}}
+	if tier == "thorough" {
+		d2s = behs
+		shs = shapes(false)
+	}
+	for _, sh := range shs {
+		for _, cc := range []struct {
+			carrier string
+			ctx     int
+		}{{"direct", 1}, {"direct", 2}, {"inproc", 2}} {
+			ts := behs
+			if cc.ctx == 2 {
+				ts = []int{bPass, bRewrite}
+			}
+			for _, form := range []string{"IS", "WI"} {
+				for _, kind := range []string{"unary", "stream"} {
+					if (kind == "unary" && sh.U == 0) || (kind == "stream" && len(sh.Flags) == 0) {
+						continue
+					}
+					for _, t := range ts {
+						for _, d1 := range behs {
+							for _, d2 := range d2s {
+								for _, herr := range []bool{false, true} {
+									depth := 1
+									if d2 != bNil {
+										depth = 2
+									}
+									fn(caseT{Carrier: cc.carrier, Form: form, U: sh.U, Flags: sh.Flags, Depth: depth, Kind: kind,
+										T: t, D1: d1, D2: d2, HErr: herr, Ctx: cc.ctx})
+								}
+							}
+						}
+					}
+				}
+			}
+		}
+	}
+}
+
+// enumerateClientFlags: a (generic) client opens the stream with flags that differ from the
+// registered ones; interceptors must still be told the service's flags.
+func enumerateClientFlags(fn func(caseT)) {
+	behs := []int{bNil, bPass, bShort, bFail, bRewrite}
+	shs := []shape{{0, []int{0}}, {0, []int{1}}, {0, []int{2}}, {0, []int{3}}, {1, []int{1, 2}}}
+	for _, sh := range shs {
+		for _, carrier := range []string{"inproc", "http"} {
+			for _, form := range []string{"IS", "WI"} {
+				for cf := 1; cf <= 4; cf++ {
+					differs := false
+					for _, f := range sh.Flags {
+						differs = differs || f != cf-1
+					}
+					if !differs {
+						continue
+					}
+					for _, t := range behs {
+						for _, d1 := range behs {
+							for _, herr := range []bool{false, true} {
+								fn(caseT{Carrier: carrier, Form: form, U: sh.U, Flags: sh.Flags, Depth: 1, Kind: "stream",
+									T: t, D1: d1, HErr: herr, CF: cf})
+							}
+						}
+					}
+				}
+			}
+		}
+	}
+}
+
 func main() {
 	rep := vlib.NewReporter("C16")
 	go func() { // hang guard
@@ -1006,11 +1150,17 @@ func main() {
 	var samples []interface{}
 	suppressedFPs := map[string]bool{}
 	const maxReported = 100
-	sharedCases := 0
+	sharedCases, ctxCases, cfCases := 0, 0, 0
 	visit := func(c caseT) {
 		evals++
 		if len(c.Seq) > 0 {
 			sharedCases++
+		}
+		if c.Ctx != 0 {
+			ctxCases++
+		}
+		if c.CF != 0 {
+			cfCases++
 		}
 		probs, obs := runCase(c, false)
 		n := c.U
@@ -1038,6 +1188,8 @@ func main() {
 	}
 	enumerate(rep.Tier, visit)
 	enumerateShared(rep.Tier, visit)
+	enumerateCtx(rep.Tier, visit)
+	enumerateClientFlags(visit)
 	suppressed := len(suppressedFPs)
 	if suppressed > 0 {
 		fmt.Printf("(%d further distinct fingerprints not reported individually after the first %d)\n", suppressed, maxReported)
@@ -1045,9 +1197,11 @@ func main() {
 	os.Exit(rep.Finish("exploration", map[string]interface{}{
 		"evaluations":         evals,
 		"sharing_cases":       sharedCases,
+		"context_cases":       ctxCases,
+		"client_flag_cases":   cfCases,
 		"rpc_calls":           calls,
 		"distinct_nontrivial": len(distinct),
-		"rule":                "every configuration of: descriptor shape (0-2 unary x 0-2 streams with every flag pair) x carrier (direct call of the decorated descriptor / inprocgrpc.Channel / httpgrpc.Server via HandlerRT) x form (InterceptServer / WithInterceptor) x depth x kind called x behaviour {nil,pass,short-circuit,fail,rewrite} of the transport-level, outer and inner interceptor of that kind x nil/set of each interceptor of the other kind x handler ok/error; every method of the kind is called. Behaviours of other-kind interceptors are not varied because the oracle demands they are never invoked. In addition the SHARING cases: one decorated description (InterceptServer) or decorated HandlerMap (WithInterceptor), outer decoration behaviour {pass,short,fail,rewrite} x inner {none; quick: pass; thorough: all four} on 4 (quick) / 21 (thorough) shapes, is contributed through HandlerMap.ForEach/RegisterService to 2 or 3 in-process channels / HTTP servers, or its handler is called directly 2 or 3 times, with every sequence over {no transport interceptor, A, B} of length 2 and 3; every method of the kind is called on every carrier in turn, same oracle per call. A configuration is non-trivial when at least one method is called and at least one interceptor is on its path; distinct by all parameters.",
+		"rule":                "every configuration of: descriptor shape (0-2 unary x 0-2 streams with every flag pair) x carrier (direct call of the decorated descriptor / inprocgrpc.Channel / httpgrpc.Server via HandlerRT) x form (InterceptServer / WithInterceptor) x depth x kind called x behaviour {nil,pass,short-circuit,fail,rewrite} of the transport-level, outer and inner interceptor of that kind x nil/set of each interceptor of the other kind x handler ok/error; every method of the kind is called. Behaviours of other-kind interceptors are not varied because the oracle demands they are never invoked. In addition the SHARING cases: one decorated description (InterceptServer) or decorated HandlerMap (WithInterceptor), outer decoration behaviour {pass,short,fail,rewrite} x inner {none; quick: pass; thorough: all four} on 4 (quick) / 21 (thorough) shapes, is contributed through HandlerMap.ForEach/RegisterService to 2 or 3 in-process channels / HTTP servers, or its handler is called directly 2 or 3 times, with every sequence over {no transport interceptor, A, B} of length 2 and 3; every method of the kind is called on every carrier in turn, same oracle per call. CONTEXT cases: the RPC's context is already cancelled at dispatch (direct carrier) or is cancelled by the transport-level interceptor just before it calls onward (direct carrier and in-process channel, waiting for the server side to finish), all behaviours of T/outer/inner, same oracle on the event log and on identities (on the in-process channel the client-visible result is not judged in these cases). CLIENT-FLAG cases: on the in-process channel and the HTTP server the client opens the stream with a StreamDesc whose flags differ from the registered ones; interceptors must be told the registered flags. A configuration is non-trivial when at least one method is called and at least one interceptor is on its path; distinct by all parameters.",
 		"samples":             samples,
 		"exhaustive":          true,
 		"suppressed_reports":  suppressed,
